@@ -222,7 +222,10 @@ func RunProp[C any](t *testing.T, p Prop[C]) {
 		if err := json.Unmarshal(cf.Case, &c); err != nil {
 			t.Fatalf("replay: case does not decode: %v", err)
 		}
-		f := p.Exec(c)
+		f := execWithWatchdog(p.Exec, c, func() {
+			b, _ := json.Marshal(map[string]interface{}{"failed": true, "failure": TimingFailf(p.ID+"/case-hang", "the replayed case did not finish within %v", caseTimeout())})
+			_ = os.WriteFile(filepath.Join(outDir(), "replay-result.json"), b, 0o644)
+		})
 		res := map[string]interface{}{"failed": f != nil, "failure": f}
 		b, _ := json.Marshal(res)
 		_ = os.WriteFile(filepath.Join(outDir(), "replay-result.json"), b, 0o644)
@@ -360,4 +363,13 @@ func execWithWatchdog[C any](exec func(C) *Failure, c C, onHang func()) *Failure
 		os.Exit(1)
 		return nil
 	}
+}
+
+// Patience is the wait used where something should have happened long ago
+// (a handler returning, a stream closing): 2 s during search, 6 s in replay.
+func Patience() time.Duration {
+	if os.Getenv("VERIF_REPLAY") != "" {
+		return 6 * time.Second
+	}
+	return 2 * time.Second
 }
